@@ -129,16 +129,29 @@ def area_deps(area, root=None):
     return deps
 
 
-def coq_build(area, clean=False, _seen=None, targets=None, root=None):
+def non_tie_targets(d):
+    """The .vo targets of the area in directory d minus its tie-A files (listed one per line in d/_TieFiles):
+    generated definitions and their bridge proofs belong to ONE property's check, which builds them itself;
+    a broken or refused tie must not fail the whole-area build that other properties' checks depend on."""
+    tf = os.path.join(d, "_TieFiles")
+    if not os.path.exists(tf):
+        return None
+    ties = set(l.strip() for l in open(tf) if l.strip() and not l.startswith("#"))
+    vs = [l.strip() for l in open(os.path.join(d, "_CoqProject")) if l.strip().endswith(".v") and not l.startswith("-")]
+    return [v[:-2] + ".vo" for v in vs if v not in ties]
+
+
+def coq_build(area, clean=False, _seen=None, targets=None, root=None, with_ties=False):
     """Full .vo build of an area (and the areas it depends on). Returns (ok, log).
-    targets: optional list of .vo files (closure built by make) instead of the whole area."""
+    targets: optional list of .vo files (closure built by make) instead of the whole area.
+    Without targets the tie-A files of the area (_TieFiles) are left out unless with_ties is set (bin/setup)."""
     _seen = _seen if _seen is not None else set()
     if area in _seen:
         return True, ""
     _seen.add(area)
     logs = []
     for dep in area_deps(area, root):
-        ok, lg = coq_build(dep, False, _seen, root=root)
+        ok, lg = coq_build(dep, False, _seen, root=root, with_ties=with_ties)
         logs.append(lg)
         if not ok:
             return False, "\n".join(logs)
@@ -152,6 +165,8 @@ def coq_build(area, clean=False, _seen=None, targets=None, root=None):
                 return False, o
         if clean:
             sh(["make", "clean"], cwd=d)
+        if targets is None and not with_ties:
+            targets = non_tie_targets(d)
         rc, o = sh(["make", "-j%d" % NCPU] + (targets or []), cwd=d, timeout=3000)
     o = "\n".join(l for l in o.splitlines() if not l.startswith("Warning:") and l.strip())
     logs.append("== make %s (rc=%d)\n%s" % (area, rc, o[-6000:]))
@@ -171,7 +186,7 @@ def private_copy(area, dest):
         dst = os.path.join(dest, a)
         os.makedirs(dst)
         for f in os.listdir(src):
-            if f.endswith(".v") or f == "_CoqProject":
+            if f.endswith(".v") or f in ("_CoqProject", "_TieFiles"):
                 shutil.copy(os.path.join(src, f), dst)
     return dest
 
